@@ -977,7 +977,7 @@ REGISTRY = {
                      "several places, run to the end; non-trivial = >= 2 results", obligations=[]),
     'C03': dict(level='proof', gen=gen_C03, nontrivial=nontrivial_calls,
                 rule="filters with user predicates (constants of every truthiness, data-dependent, raising) at the root, after "
-                     "wildcard/rec/slice, stacked; non-trivial = predicate called >= 2 times", obligations=[]),
+                     "wildcard/rec/slice, stacked, between parent steps; non-trivial = predicate called >= 2 times", obligations=[]),
     'C04': dict(level='proof', gen=gen_C04, nontrivial=lambda c, o: n_results(o) >= 1 and len(scan(o, 'callf')) + len(scan(o, 'call')) >= 1,
                 rule="has/has_all/has_any/has_not over relative paths built from the document's own names, six operators, "
                      "constants from the document, 0-3 conversion functions, raising arguments; all spellings; non-trivial = "
@@ -989,7 +989,8 @@ REGISTRY = {
                 rule="sequences of 1-5 read-only calls with a deep snapshot (identities, order, values) after each", obligations=[]),
     'C07': dict(level='proof', gen=gen_C07, oracle=oracle_C07, nontrivial=nontrivial_C07,
                 rule="1-5 live iterators advanced by a random schedule, then drained with 0-5 extra next(); plus the "
-                     "'first multi-valued step on the root' shape; non-trivial = >= 2 iterators and >= 2 results", obligations=[]),
+                     "'first multi-valued step on the root' shape; plus the preemption sweep (family p) and the REUSE direct oracle (one path "
+                     "object evaluated 1 200 times, most evaluations left unfinished); non-trivial = >= 2 iterators and >= 2 results", obligations=[]),
     'C11': dict(level='proof', gen=gen_C11, oracle=oracle_C11, nontrivial=lambda c, o: len(scan(o, 'match')) >= 2,
                 rule="every match of 1-3 queries: metadata, round trip through m.path, == / != on pairs; documents with "
                      "duplicated subtrees; non-trivial = >= 2 matches described", obligations=[]),
@@ -1003,7 +1004,8 @@ REGISTRY = {
                 rule="the same query traced and untraced (iterators, get_match, get, from a Match); non-trivial = >= 3 trace "
                      "events and >= 1 result; plus builder histories drained under the library's own tracer "
                      "log_to(lines.append), the lines compared with the model of trace._log (repr quoting, escaping, "
-                     "20-character cut, vertex segments)", obligations=[]),
+                     "20-character cut, vertex segments); existence filters over falsy members traced and untraced; the TWOHOP direct oracle "
+                     "(custom predicates searching on from the Match of their first get_match)", obligations=[]),
     'C20': dict(level='proof', gen=gen_C20,
                 oracle=lambda c, o: oracle_C20(c, o) if c['family'] == 'q' else
                 ([] if c['family'] != 'f' or o == ('N', 'f', [('S', 'results:400000,400000')]) else
